@@ -181,7 +181,14 @@ func (g *gatedConn) Read(p []byte) (int, error) {
 // coalescedHandshakeCase: the opposite of fragmentation. The party that reads the last act of the
 // handshake gets to read only after its peer has also written its first record, so one Read can
 // return the end of the handshake together with the beginning of the record stream.
+// With split the record is read through ReadHeader and ReadBody (what NoiseConn.ReadNextHeader /
+// ReadNextBody expose) instead of ReadMessage.
 func coalescedHandshakeCase(r *Recorder, kk bool, min, max byte, recLen int) {
+	coalescedHandshakeCaseMode(r, kk, min, max, recLen, false)
+	coalescedHandshakeCaseMode(r, kk, min, max, recLen, true)
+}
+
+func coalescedHandshakeCaseMode(r *Recorder, kk bool, min, max byte, recLen int, split bool) {
 	pass := []byte("pairing-phrase-entropy")
 	cli := &hsSide{Priv: key(2101), Passphrase: pass, Min: min, Max: max}
 	srv := &hsSide{Priv: key(2102), Passphrase: pass, AuthData: patterned(40, 3), Min: min, Max: max}
@@ -190,7 +197,7 @@ func coalescedHandshakeCase(r *Recorder, kk bool, min, max byte, recLen int) {
 	}
 	cli.build(true)
 	srv.build(false)
-	name := fmt.Sprintf("coalesced-hs:kk=%v:v=%d-%d:rec=%d", kk, min, max, recLen)
+	name := fmt.Sprintf("coalesced-hs:kk=%v:v=%d-%d:rec=%d:split-read-api=%v", kk, min, max, recLen, split)
 	if cli.NewErr != nil || srv.NewErr != nil {
 		r.Violate("C16/setup", fmt.Sprint(cli.NewErr, srv.NewErr), name)
 		return
@@ -225,11 +232,21 @@ func coalescedHandshakeCase(r *Recorder, kk bool, min, max byte, recLen int) {
 			return
 		}
 		done := make(chan struct{})
-		go func() { got, readErr = last.Machine.ReadMessage(lastConn); close(done) }()
+		go func() {
+			defer close(done)
+			if !split {
+				got, readErr = last.Machine.ReadMessage(lastConn)
+				return
+			}
+			var n uint32
+			if n, readErr = last.Machine.ReadHeader(lastConn); readErr == nil {
+				got, readErr = last.Machine.ReadBody(lastConn, make([]byte, n))
+			}
+		}()
 		select {
 		case <-done:
 		case <-time.After(10 * time.Second):
-			readErr = errors.New("ReadMessage blocks: the bytes of the record are gone")
+			readErr = errors.New("the read blocks: the bytes of the record are gone")
 		}
 	}()
 	wg.Wait()
@@ -237,7 +254,7 @@ func coalescedHandshakeCase(r *Recorder, kk bool, min, max byte, recLen int) {
 	case cli.Err != nil || srv.Err != nil:
 		r.Violate("C16/handshake-coalesced-read", fmt.Sprintf("valid handshake failed when the last act and the first record arrive together: client %v, server %v", cli.Err, srv.Err), name)
 	case readErr != nil || !bytes.Equal(got, record):
-		r.Violate("C16/record-lost-after-handshake", fmt.Sprintf("the last act of the handshake and the first %d byte record were readable together: handshake ok on both sides, then ReadMessage: %v", recLen, readErr), name)
+		r.Violate("C16/record-lost-after-handshake", fmt.Sprintf("the last act of the handshake and the first %d byte record were readable together: handshake ok on both sides, then reading the record (split header/body API: %v): %v", recLen, split, readErr), name)
 	}
 	r.Case(name, true, "coalesced-handshake")
 }
